@@ -3,6 +3,7 @@
 package simos
 
 import (
+	"fmt"
 	"io/fs"
 	"os"
 	"syscall"
@@ -115,4 +116,39 @@ func Kill(sig os.Signal) {
 		}
 		simrt.Post(t)
 	}
+}
+
+// ProcessExit is the panic value with which a task ends that called os.Exit or
+// log.Fatal*: inside the simulation the process "dies" as an uncaught panic of
+// that task (the run records it; whether that breaks a property is the
+// scenario's business), not as the death of the worker process.
+type ProcessExit struct {
+	Code int
+	Msg  string
+}
+
+func (e ProcessExit) Error() string {
+	return fmt.Sprintf("the code under test ended the process: exit status %d %s", e.Code, e.Msg)
+}
+
+// Exit replaces os.Exit.
+func Exit(code int) {
+	simrt.Probe("process_exit_called")
+	panic(ProcessExit{Code: code})
+}
+
+// Fatal, Fatalf, Fatalln replace the log package's functions of those names.
+func Fatal(v ...any) {
+	simrt.Probe("process_exit_called")
+	panic(ProcessExit{Code: 1, Msg: "(log.Fatal: " + fmt.Sprint(v...) + ")"})
+}
+
+func Fatalf(format string, v ...any) {
+	simrt.Probe("process_exit_called")
+	panic(ProcessExit{Code: 1, Msg: "(log.Fatalf: " + fmt.Sprintf(format, v...) + ")"})
+}
+
+func Fatalln(v ...any) {
+	simrt.Probe("process_exit_called")
+	panic(ProcessExit{Code: 1, Msg: "(log.Fatalln: " + fmt.Sprint(v...) + ")"})
 }
